@@ -14,6 +14,7 @@ import (
 	"os"
 	"slices"
 	"strings"
+	"sync"
 
 	"golang.org/x/tools/go/ssa"
 )
@@ -97,7 +98,9 @@ type frame struct {
 	caller           *frame
 	fn               *ssa.Function
 	block, prevBlock *ssa.BasicBlock
-	env              map[ssa.Value]value
+	env              []value
+	cf               *cfunc
+	dst              int32 // slot of the instruction being executed
 	locals           []value
 	defers           *deferred
 	result           value
@@ -118,8 +121,8 @@ func (fr *frame) get(key ssa.Value) value {
 	case *ssa.Global:
 		return fr.i.global(key)
 	}
-	if r, ok := fr.env[key]; ok {
-		return r
+	if sl, ok := fr.cf.slot[key]; ok {
+		return fr.env[sl]
 	}
 	panic(engineError{fmt.Sprintf("get: no value for %T: %v", key, key.Name())})
 }
@@ -223,43 +226,43 @@ func visitInstr(fr *frame, instr ssa.Instruction) continuation {
 		// no-op
 
 	case *ssa.UnOp:
-		fr.env[instr] = i.unop(fr, instr, fr.get(instr.X))
+		fr.env[fr.dst] = i.unop(fr, instr, fr.get(instr.X))
 
 	case *ssa.BinOp:
-		fr.env[instr] = i.binopV(instr.Op, instr.X.Type(), fr.get(instr.X), fr.get(instr.Y))
+		fr.env[fr.dst] = i.binopV(instr.Op, instr.X.Type(), fr.get(instr.X), fr.get(instr.Y))
 
 	case *ssa.Call:
 		fn, args := prepareCall(fr, &instr.Call)
-		fr.env[instr] = call(fr.i, fr, instr.Pos(), fn, args)
+		fr.env[fr.dst] = call(fr.i, fr, instr.Pos(), fn, args)
 
 	case *ssa.ChangeInterface:
-		fr.env[instr] = fr.get(instr.X)
+		fr.env[fr.dst] = fr.get(instr.X)
 
 	case *ssa.ChangeType:
-		fr.env[instr] = fr.get(instr.X)
+		fr.env[fr.dst] = fr.get(instr.X)
 
 	case *ssa.Convert:
-		fr.env[instr] = i.convV(instr.Type(), instr.X.Type(), fr.get(instr.X))
+		fr.env[fr.dst] = i.convV(instr.Type(), instr.X.Type(), fr.get(instr.X))
 
 	case *ssa.SliceToArrayPointer:
-		fr.env[instr] = sliceToArrayPointer(instr.Type(), instr.X.Type(), fr.get(instr.X))
+		fr.env[fr.dst] = sliceToArrayPointer(instr.Type(), instr.X.Type(), fr.get(instr.X))
 
 	case *ssa.MakeInterface:
 		if ps, isP := fr.get(instr.X).(poison); isP {
-			fr.env[instr] = ps
+			fr.env[fr.dst] = ps
 			break
 		}
-		fr.env[instr] = iface{t: instr.X.Type(), v: fr.get(instr.X)}
+		fr.env[fr.dst] = iface{t: instr.X.Type(), v: fr.get(instr.X)}
 
 	case *ssa.Extract:
 		if ps, isP := fr.get(instr.Tuple).(poison); isP {
-			fr.env[instr] = ps
+			fr.env[fr.dst] = ps
 			break
 		}
-		fr.env[instr] = fr.get(instr.Tuple).(tuple)[instr.Index]
+		fr.env[fr.dst] = fr.get(instr.Tuple).(tuple)[instr.Index]
 
 	case *ssa.Slice:
-		fr.env[instr] = i.sliceOp(fr.get(instr.X), fr.get(instr.Low), fr.get(instr.High), fr.get(instr.Max))
+		fr.env[fr.dst] = i.sliceOp(fr.get(instr.X), fr.get(instr.Low), fr.get(instr.High), fr.get(instr.Max))
 
 	case *ssa.Return:
 		switch len(instr.Results) {
@@ -327,60 +330,60 @@ func visitInstr(fr *frame, instr ssa.Instruction) continuation {
 	case *ssa.MakeChan:
 		n := i.concreteInt(fr.get(instr.Size), "make(chan) size", 64)
 		i.chanSeq++
-		fr.env[instr] = &channel{cap: int(n), id: i.chanSeq, elemT: instr.Type().Underlying().(*types.Chan).Elem()}
+		fr.env[fr.dst] = &channel{cap: int(n), id: i.chanSeq, elemT: instr.Type().Underlying().(*types.Chan).Elem()}
 
 	case *ssa.Alloc:
 		var addr *value
 		if instr.Heap {
 			addr = new(value)
-			fr.env[instr] = addr
+			fr.env[fr.dst] = addr
 		} else {
-			addr = fr.env[instr].(*value)
+			addr = fr.env[fr.dst].(*value)
 		}
 		*addr = zero(deref(instr.Type()))
 
 	case *ssa.MakeSlice:
 		tElt := instr.Type().Underlying().(*types.Slice).Elem()
-		fr.env[instr] = i.makeSlice(fr, tElt, fr.get(instr.Len), fr.get(instr.Cap))
+		fr.env[fr.dst] = i.makeSlice(fr, tElt, fr.get(instr.Len), fr.get(instr.Cap))
 
 	case *ssa.MakeMap:
-		fr.env[instr] = makeMap(instr.Type().Underlying().(*types.Map).Key())
+		fr.env[fr.dst] = makeMap(instr.Type().Underlying().(*types.Map).Key())
 
 	case *ssa.Range:
-		fr.env[instr] = rangeIter(fr.get(instr.X), instr.X.Type())
+		fr.env[fr.dst] = rangeIter(fr.get(instr.X), instr.X.Type())
 
 	case *ssa.Next:
-		fr.env[instr] = fr.get(instr.Iter).(iter).next()
+		fr.env[fr.dst] = fr.get(instr.Iter).(iter).next()
 
 	case *ssa.FieldAddr:
 		if ps, isP := fr.get(instr.X).(poison); isP {
-			fr.env[instr] = ps
+			fr.env[fr.dst] = ps
 			break
 		}
 		p := derefPtr(fr.get(instr.X))
 		s, ok := (*p).(structure)
 		if !ok {
 			if ps, isP := (*p).(poison); isP {
-				fr.env[instr] = ps
+				fr.env[fr.dst] = ps
 				break
 			}
 			panic(engineError{fmt.Sprintf("FieldAddr on %T", *p)})
 		}
-		fr.env[instr] = &s[instr.Field]
+		fr.env[fr.dst] = &s[instr.Field]
 
 	case *ssa.Field:
 		if ps, isP := fr.get(instr.X).(poison); isP {
-			fr.env[instr] = ps
+			fr.env[fr.dst] = ps
 			break
 		}
-		fr.env[instr] = fr.get(instr.X).(structure)[instr.Field]
+		fr.env[fr.dst] = fr.get(instr.X).(structure)[instr.Field]
 
 	case *ssa.IndexAddr:
 		x := fr.get(instr.X)
 		switch x := x.(type) {
 		case []value:
 			idx := i.indexIn(fr.get(instr.Index), len(x))
-			fr.env[instr] = &x[idx]
+			fr.env[fr.dst] = &x[idx]
 		case *value: // *array
 			if x == nil {
 				panic(rtPanic("invalid memory address or nil pointer dereference"))
@@ -393,7 +396,7 @@ func visitInstr(fr *frame, instr ssa.Instruction) continuation {
 				panic(engineError{fmt.Sprintf("IndexAddr on *%T", *x)})
 			}
 			idx := i.indexIn(fr.get(instr.Index), len(a))
-			fr.env[instr] = &a[idx]
+			fr.env[fr.dst] = &a[idx]
 		default:
 			panic(engineError{fmt.Sprintf("unexpected x type in IndexAddr: %T", x)})
 		}
@@ -403,22 +406,22 @@ func visitInstr(fr *frame, instr ssa.Instruction) continuation {
 		switch x := x.(type) {
 		case array:
 			idx := i.indexIn(fr.get(instr.Index), len(x))
-			fr.env[instr] = x[idx]
+			fr.env[fr.dst] = x[idx]
 		case string:
 			idx := i.indexIn(fr.get(instr.Index), len(x))
-			fr.env[instr] = x[idx]
+			fr.env[fr.dst] = x[idx]
 		case symString:
 			if x.bytes == nil {
 				panic(engineError{"index into formatted symbolic string"})
 			}
 			idx := i.indexIn(fr.get(instr.Index), len(x.bytes))
-			fr.env[instr] = x.bytes[idx]
+			fr.env[fr.dst] = x.bytes[idx]
 		default:
 			panic(engineError{fmt.Sprintf("unexpected x type in Index: %T", x)})
 		}
 
 	case *ssa.Lookup:
-		fr.env[instr] = i.lookup(instr, fr.get(instr.X), fr.get(instr.Index))
+		fr.env[fr.dst] = i.lookup(instr, fr.get(instr.X), fr.get(instr.Index))
 
 	case *ssa.MapUpdate:
 		m := fr.get(instr.Map)
@@ -432,20 +435,20 @@ func visitInstr(fr *frame, instr ssa.Instruction) continuation {
 		}
 
 	case *ssa.TypeAssert:
-		fr.env[instr] = typeAssert(fr.i, instr, fr.get(instr.X).(iface))
+		fr.env[fr.dst] = typeAssert(fr.i, instr, fr.get(instr.X).(iface))
 
 	case *ssa.MakeClosure:
 		var bindings []value
 		for _, binding := range instr.Bindings {
 			bindings = append(bindings, fr.get(binding))
 		}
-		fr.env[instr] = &closure{instr.Fn.(*ssa.Function), bindings}
+		fr.env[fr.dst] = &closure{instr.Fn.(*ssa.Function), bindings}
 
 	case *ssa.Phi:
 		panic(engineError{"unreachable phi"})
 
 	case *ssa.Select:
-		fr.env[instr] = i.selectOp(fr, instr)
+		fr.env[fr.dst] = i.selectOp(fr, instr)
 
 	default:
 		panic(engineError{fmt.Sprintf("unexpected instruction: %T", instr)})
@@ -545,62 +548,46 @@ func callSSA(i *interpreter, caller *frame, callpos token.Pos, fn *ssa.Function,
 	if i.trace {
 		fmt.Fprintf(os.Stderr, "%*scall %s\n", depthOf(caller), "", fn.String())
 	}
-	if fn.Parent() == nil {
-		name := fn.String()
-		if ext := intrinsics[name]; ext != nil {
-			return ext(fr, args)
+	info := i.fnInfo(fn)
+	switch info.kind {
+	case fkIntrinsic:
+		return info.intr(fr, args)
+	case fkStub:
+		return stubCall(fr, fn, args)
+	case fkInitSkip:
+		return nil
+	case fkInit:
+		i.inInit++
+		defer func() { i.inInit-- }()
+	case fkOpaque:
+		if i.inInit > 0 {
+			return poisonResult(fn)
 		}
-		if i.cfg.SkipFuncs[name] {
-			return stubCall(fr, fn, args)
+		panic(engineError{"call into opaque package: " + info.name + "\n" + caller.stack()})
+	case fkNoCode:
+		if i.inInit > 0 {
+			return poisonResult(fn)
 		}
-		if fn.Pkg != nil {
-			path := fn.Pkg.Pkg.Path()
-			if i.cfg.stubbed(path) {
-				return stubCall(fr, fn, args)
-			}
-			if fn.Synthetic != "" && fn.Name() == "init" {
-				if !i.cfg.initAllowed(path) {
-					return nil
-				}
-				i.inInit++
-				defer func() { i.inInit-- }()
-			} else if i.cfg.opaque(path) {
-				if i.inInit > 0 {
-					return poisonResult(fn)
-				}
-				panic(engineError{"call into opaque package: " + name + "\n" + caller.stack()})
-			}
-		} else if origin := fn.Origin(); origin != nil && origin.Pkg != nil {
-			if i.cfg.opaque(origin.Pkg.Pkg.Path()) {
-				if i.inInit > 0 {
-					return poisonResult(fn)
-				}
-				panic(engineError{"call into opaque package: " + name})
-			}
-		}
-		if fn.Blocks == nil {
-			if i.inInit > 0 {
-				return poisonResult(fn)
-			}
-			panic(engineError{"no code for function: " + name + "\n" + caller.stack()})
-		}
+		panic(engineError{"no code for function: " + info.name + "\n" + caller.stack()})
 	}
 	if fn.TypeParams().Len() > 0 && len(fn.TypeArgs()) == 0 {
 		panic(engineError{"uninstantiated generic function " + fn.String()})
 	}
 
-	fr.env = make(map[ssa.Value]value, len(fn.Params)+len(fn.Locals)+8)
+	cf := compileFunc(fn)
+	fr.cf = cf
+	fr.env = make([]value, cf.nslots)
 	fr.block = fn.Blocks[0]
 	fr.locals = make([]value, len(fn.Locals))
 	for j, l := range fn.Locals {
 		fr.locals[j] = zero(deref(l.Type()))
-		fr.env[l] = &fr.locals[j]
+		fr.env[cf.slot[l]] = &fr.locals[j]
 	}
 	for j, p := range fn.Params {
-		fr.env[p] = args[j]
+		fr.env[cf.slot[p]] = args[j]
 	}
 	for j, fv := range fn.FreeVars {
-		fr.env[fv] = env[j]
+		fr.env[cf.slot[fv]] = env[j]
 	}
 	start := i.steps
 	for fr.block != nil {
@@ -610,6 +597,67 @@ func callSSA(i *interpreter, caller *frame, callpos token.Pos, fn *ssa.Function,
 		i.funcsRun[fn] += i.steps - start
 	}
 	return fr.result
+}
+
+type fnKind uint8
+
+const (
+	fkNormal fnKind = iota
+	fkIntrinsic
+	fkStub
+	fkInitSkip
+	fkInit
+	fkOpaque
+	fkNoCode
+)
+
+type fnInfoT struct {
+	kind fnKind
+	intr intrinsic
+	name string
+}
+
+var fnInfoCache sync.Map // *ssa.Function -> *fnInfoT (configuration is the same for every run of a process)
+
+func (i *interpreter) fnInfo(fn *ssa.Function) *fnInfoT {
+	if v, ok := fnInfoCache.Load(fn); ok {
+		return v.(*fnInfoT)
+	}
+	info := &fnInfoT{kind: fkNormal}
+	if fn.Parent() == nil {
+		name := fn.String()
+		info.name = name
+		switch {
+		case intrinsics[name] != nil:
+			info.kind, info.intr = fkIntrinsic, intrinsics[name]
+		case i.cfg.SkipFuncs[name]:
+			info.kind = fkStub
+		case fn.Pkg != nil:
+			path := fn.Pkg.Pkg.Path()
+			switch {
+			case i.cfg.stubbed(path):
+				info.kind = fkStub
+			case fn.Synthetic != "" && fn.Name() == "init":
+				if i.cfg.initAllowed(path) {
+					info.kind = fkInit
+				} else {
+					info.kind = fkInitSkip
+				}
+			case i.cfg.opaque(path):
+				info.kind = fkOpaque
+			case fn.Blocks == nil:
+				info.kind = fkNoCode
+			}
+		default:
+			if origin := fn.Origin(); origin != nil && origin.Pkg != nil && i.cfg.opaque(origin.Pkg.Pkg.Path()) {
+				info.kind = fkOpaque
+			} else if fn.Blocks == nil {
+				info.kind = fkNoCode
+			}
+		}
+	}
+	fnInfoCache.Store(fn, info)
+	return info
 }
 
 func depthOf(fr *frame) int {
@@ -669,8 +717,9 @@ func runFrame(fr *frame) {
 
 	i := fr.i
 	for {
-		nonPhis := executePhis(fr)
-		for _, instr := range nonPhis {
+		nonPhis, dsts := executePhis(fr)
+		for k, instr := range nonPhis {
+			fr.dst = dsts[k]
 			i.steps++
 			if i.steps > i.stepBudget {
 				panic(pathEnd{reason: "step-budget"})
@@ -696,28 +745,82 @@ type engineBug struct {
 	where string
 }
 
-func executePhis(fr *frame) []ssa.Instruction {
-	firstNonPhi := -1
-	for i, instr := range fr.block.Instrs {
-		if _, ok := instr.(*ssa.Phi); !ok {
-			firstNonPhi = i
-			break
-		}
-	}
-	nonPhis := fr.block.Instrs[firstNonPhi:]
-	if firstNonPhi > 0 {
-		phis := fr.block.Instrs[:firstNonPhi]
+func executePhis(fr *frame) ([]ssa.Instruction, []int32) {
+	cb := &fr.cf.blocks[fr.block.Index]
+	if cb.firstNonPhi > 0 {
+		phis := fr.block.Instrs[:cb.firstNonPhi]
 		predIndex := slices.Index(fr.block.Preds, fr.prevBlock)
 		fr.phitemps = fr.phitemps[:0]
 		for _, phi := range phis {
 			phi := phi.(*ssa.Phi)
 			fr.phitemps = append(fr.phitemps, fr.get(phi.Edges[predIndex]))
 		}
-		for i, phi := range phis {
-			fr.env[phi.(*ssa.Phi)] = fr.phitemps[i]
+		for j := range phis {
+			fr.env[cb.dst[j]] = fr.phitemps[j]
 		}
 	}
-	return nonPhis
+	return fr.block.Instrs[cb.firstNonPhi:], cb.dst[cb.firstNonPhi:]
+}
+
+// cfunc is the per-function slot assignment (shared, read-only once built).
+type cfunc struct {
+	slot   map[ssa.Value]int32
+	nslots int
+	blocks []cblock
+}
+
+type cblock struct {
+	firstNonPhi int
+	dst         []int32 // slot written by each instruction (-1 if none)
+}
+
+var cfuncCache sync.Map
+
+func compileFunc(fn *ssa.Function) *cfunc {
+	if v, ok := cfuncCache.Load(fn); ok {
+		return v.(*cfunc)
+	}
+	cf := &cfunc{slot: make(map[ssa.Value]int32)}
+	n := int32(0)
+	add := func(v ssa.Value) int32 {
+		cf.slot[v] = n
+		n++
+		return n - 1
+	}
+	for _, p := range fn.Params {
+		add(p)
+	}
+	for _, fv := range fn.FreeVars {
+		add(fv)
+	}
+	for _, l := range fn.Locals {
+		add(l)
+	}
+	cf.blocks = make([]cblock, len(fn.Blocks))
+	for bi, b := range fn.Blocks {
+		cb := &cf.blocks[bi]
+		cb.firstNonPhi = len(b.Instrs)
+		cb.dst = make([]int32, len(b.Instrs))
+		seenNonPhi := false
+		for k, instr := range b.Instrs {
+			if _, isPhi := instr.(*ssa.Phi); !isPhi && !seenNonPhi {
+				cb.firstNonPhi = k
+				seenNonPhi = true
+			}
+			cb.dst[k] = -1
+			if v, ok := instr.(ssa.Value); ok {
+				if sl, have := cf.slot[v]; have {
+					cb.dst[k] = sl // local Alloc: slot already holds its address
+				} else {
+					cb.dst[k] = add(v)
+				}
+			}
+		}
+	}
+	// one scratch slot for instructions without a value (dst -1 is never written)
+	cf.nslots = int(n)
+	cfuncCache.Store(fn, cf)
+	return cf
 }
 
 func doRecover(caller *frame) value {
